@@ -14,6 +14,22 @@ def Partition (f : FactorD) : Prop :=
     (((f.levels[i]?).map (fun l => l.table.getD key false)).getD false = true) ∧
     ∀ j, j < f.levels.length → (((f.levels[j]?).map (fun l => l.table.getD key false)).getD false = true) → j = i
 
+/-- the same at one key: exactly one level's table accepts it (`Partition` asks this of *every* natural number, which
+    finite tables only meet when read as "every key a window can produce"; this pointwise form is the one the
+    other theorems use) -/
+def UniqueAt (f : FactorD) (key : Nat) : Prop :=
+  ∃ i, i < f.levels.length ∧
+    (((f.levels[i]?).map (fun l => l.table.getD key false)).getD false = true) ∧
+    ∀ j, j < f.levels.length → (((f.levels[j]?).map (fun l => l.table.getD key false)).getD false = true) → j = i
+
+theorem matching_unique_at (d : Design) (f : FactorD) (w : WindowD) (look : Nat → Nat → Option Nat) (t : Nat)
+    (h : UniqueAt f (windowKey d w look t)) : ∃ i, matching d f w look t = [i] ∧ i < f.levels.length := by
+  obtain ⟨i, hi, hpi, huniq⟩ := h
+  refine ⟨i, ?_, hi⟩
+  unfold matching
+  exact SpecLemmas.filter_eq_singleton _ List.nodup_range (List.mem_range.mpr hi) hpi
+    (fun j hj hpj => huniq j (List.mem_range.mp hj) hpj)
+
 theorem matching_unique (d : Design) (f : FactorD) (w : WindowD) (look : Nat → Nat → Option Nat) (t : Nat)
     (h : Partition f) : ∃ i, matching d f w look t = [i] ∧ i < f.levels.length := by
   obtain ⟨i, hi, hpi, huniq⟩ := h (windowKey d w look t)
